@@ -11,17 +11,10 @@ use rayon::prelude::*;
 use refmodels::seeding;
 use serde_json::json;
 
-fn zero_gen(ty: &dyn GenType) -> Box<dyn Gen> {
-    ty.de(&vec![0u8; ty.info().seed_len]).expect("serde").expect("zero image")
-}
-
-fn is_zero_state(ty: &dyn GenType, g: &dyn Gen) -> bool {
-    g.eq_dyn(zero_gen(ty).as_ref()) == Some(true) || g.ser().map(|i| i.iter().all(|&b| b == 0)).unwrap_or(false)
-}
-
-fn outputs_all_zero(g: &dyn Gen, wb: usize) -> bool {
-    let mut c = g.clone_box();
-    (0..8).all(|_| native(&mut c, wb) == 0)
+/// Is the generator in the all-zero state? Decided on the state image alone (all 15 types are
+/// serialisable): neither deserialisation (C11's business) nor the outputs (C01/C04's) are consulted.
+fn is_zero_state(_ty: &dyn GenType, g: &dyn Gen) -> bool {
+    g.ser().map(|i| !i.is_empty() && i.iter().all(|&b| b == 0)).unwrap_or(false)
 }
 
 /// The documented replacement for the all-zero seed.
@@ -80,7 +73,7 @@ pub fn run(reg: &dyn Registry, ctx: &Ctx) -> Outcome {
                             ctx.violation(&key("zero-seed-vs-seed_from_u64"), &format!("{}: from_seed(all zero) != seed_from_u64(0)", info.name), rep(json!({"from_seed": hex(&vec![0u8; len])})));
                         }
                     }
-                    if is_zero_state(*ty, z.as_ref()) || outputs_all_zero(z.as_ref(), info.word_bits) {
+                    if is_zero_state(*ty, z.as_ref()) {
                         ctx.violation(&key("zero-state"), &format!("{}: from_seed(all zero) is in the all-zero state", info.name), rep(json!({"from_seed": hex(&vec![0u8; len])})));
                     }
                 }
@@ -88,7 +81,12 @@ pub fn run(reg: &dyn Registry, ctx: &Ctx) -> Outcome {
             }
 
             // 2. every non-zero alphabet seed is used verbatim (=> injective) and is not the zero state
-            let seeds = seed_alphabet(len, true);
+            let mut seeds = seed_alphabet(len, true);
+            seeds.extend(documented_constant_seeds(*ty).into_iter().filter(|s| s.iter().any(|&b| b != 0)));
+            {
+                let mut seen = std::collections::HashSet::new();
+                seeds.retain(|s| seen.insert(s.clone()));
+            }
             let mut images = std::collections::HashSet::new();
             for s in &seeds {
                 ctx.add("states", 1);
@@ -98,7 +96,7 @@ pub fn run(reg: &dyn Registry, ctx: &Ctx) -> Outcome {
                         if &img != s {
                             ctx.violation(&key("not-verbatim"), &format!("{}: from_seed({}) has state image {} (seed not used verbatim)", info.name, hex(s), hex(&img)), rep(json!({"from_seed": hex(s)})));
                         }
-                        if is_zero_state(*ty, g.as_ref()) || outputs_all_zero(g.as_ref(), info.word_bits) {
+                        if is_zero_state(*ty, g.as_ref()) {
                             ctx.violation(&key("zero-state"), &format!("{}: from_seed({}) is in the all-zero state", info.name, hex(s)), rep(json!({"from_seed": hex(s)})));
                         }
                         images.insert(img);
@@ -117,7 +115,7 @@ pub fn run(reg: &dyn Registry, ctx: &Ctx) -> Outcome {
                 match guarded(|| ty.seed_from_u64(x)) {
                     Ok(g) => {
                         // (equality with the documented expansion is C09's statement, not checked here)
-                        if is_zero_state(*ty, g.as_ref()) || outputs_all_zero(g.as_ref(), info.word_bits) {
+                        if is_zero_state(*ty, g.as_ref()) {
                             ctx.violation(&key("zero-state"), &format!("{}: seed_from_u64({:#x}) is in the all-zero state", info.name, x), rep(json!({"seed_from_u64": x})));
                         }
                     }
@@ -141,9 +139,10 @@ pub fn run(reg: &dyn Registry, ctx: &Ctx) -> Outcome {
             // 4. from_rng / try_from_rng over sources that deliver z all-zero blocks first
             let mut blocks: Vec<Vec<u8>> = alphabet::w1(len);
             blocks.push(alphabet::bg_bytes(ctx.seed, 0x0803, len));
-            let zmax = if thorough { 12 } else { 8 };
-            for z in 0..=zmax {
-                for blk in blocks.iter().step_by(if z <= 1 { 1 } else { 16 }) {
+            blocks.extend(documented_constant_seeds(*ty).into_iter().filter(|s| s.iter().any(|&b| b != 0)));
+            let zmax = if thorough { 65536 } else { 4096 };
+            for z in alphabet::zero_block_counts(zmax) {
+                for blk in blocks.iter().step_by(if z <= 1 { 1 } else if z <= 12 { 16 } else { 61 }) {
                     let mut script = vec![0u8; z * len];
                     script.extend_from_slice(blk);
                     script.extend_from_slice(&alphabet::bg_bytes(ctx.seed, 0x0804, len)); // what follows
@@ -174,7 +173,7 @@ pub fn run(reg: &dyn Registry, ctx: &Ctx) -> Outcome {
                                 continue;
                             }
                         };
-                        if is_zero_state(*ty, g.as_ref()) || outputs_all_zero(g.as_ref(), info.word_bits) {
+                        if is_zero_state(*ty, g.as_ref()) {
                             ctx.violation(&key("zero-state"), &format!("{}: {} with {} leading all-zero blocks returned the all-zero state", info.name, which, z), rp.clone());
                             continue;
                         }
@@ -191,7 +190,7 @@ pub fn run(reg: &dyn Registry, ctx: &Ctx) -> Outcome {
                 }
             }
             if info.name == "Xoroshiro64Star" {
-                ctx.sample(json!({"type": info.name, "u64_alphabet_includes": "0 - j*PHI for j=1..8 (SplitMix64 output j is zero)", "zero_blocks_before_seed": format!("0..={}", zmax)}));
+                ctx.sample(json!({"type": info.name, "u64_alphabet_includes": "0 - j*PHI for j=1..8 (SplitMix64 output j is zero)", "zero_blocks_before_seed": format!("{:?}", alphabet::zero_block_counts(zmax))}));
             }
         })
         .collect();
@@ -206,7 +205,7 @@ pub fn run(reg: &dyn Registry, ctx: &Ctx) -> Outcome {
             traces: "source_scripts",
             evaluations: "evaluations",
             distinct: "distinct_images",
-            rule: "every constructor of the 14 linear xoshiro types and XorShiftRng on: the all-zero seed; every non-zero seed of O/W1/W2/WZ/BYTE (state image must equal the seed; distinct = distinct images); the u64 alphabet (incl. the 8 arguments whose SplitMix64 output j is zero) and complete 2^22 (quick) / 2^32 (thorough) sub-cubes of the low and high half of the u64 argument; from_rng and try_from_rng over sources delivering 0..8 (12) all-zero blocks followed by each single-bit block".into(),
+            rule: "every constructor of the 14 linear xoshiro types and XorShiftRng on: the all-zero seed; every non-zero seed of O/W1/W2/WZ/BYTE (state image must equal the seed; distinct = distinct images); the u64 alphabet (incl. the 8 arguments whose SplitMix64 output j is zero) and complete 2^22 (quick) / 2^32 (thorough) sub-cubes of the low and high half of the u64 argument; from_rng and try_from_rng over sources delivering z all-zero blocks (z = 0..12 and 2^j-1, 2^j, 2^j+1 up to 4097 / 65537) followed by single-bit blocks and by the documented replacement constants".into(),
         },
     }
 }
